@@ -42,11 +42,13 @@ Definition frame_flag (f : list N) : N := nth 5 f 0.
 Definition frame_has_props (f : list N) : bool :=
   negb (N.land (frame_flag f) LOCK_DATA_FLAG_CONTAINS_PROPERTY =? 0).
 Definition frame_plen (f : list N) : N := nth 6 f 0 + 256 * nth 7 f 0.
-(* GetValueOffset; the index expressions Data[6], Data[7] panic on short frames: None *)
+(* GetValueOffset (LockResultCommandData, bounded since /repo 22baf83): an offset beyond the frame is clamped to the
+   frame length; the option type is kept for the callers, the result is always Some *)
 Definition frame_value_offset (f : list N) : option N :=
   if frame_has_props f then
-    if N.of_nat (length f) <? 8 then None else Some (frame_plen f + 8)
-  else Some 6.
+    if N.of_nat (length f) <? 8 then Some (N.of_nat (length f))
+    else if N.of_nat (length f) <? frame_plen f + 8 then Some (N.of_nat (length f)) else Some (frame_plen f + 8)
+  else if N.of_nat (length f) <? 6 then Some (N.of_nat (length f)) else Some 6.
 (* Data[GetValueOffset():] *)
 Definition frame_value (f : list N) : option (list N) :=
   match frame_value_offset f with
@@ -54,18 +56,19 @@ Definition frame_value (f : list N) : option (list N) :=
   | Some o => if N.of_nat (length f) <? o then None else Some (skipn (N.to_nat o) f)
   end.
 
-(* GetDataProperties: the loop `for index < propertyLen`; None = an index or slice expression panics *)
+(* GetDataProperties: the loop `for index < propertyLen`; a property that does not fit into the frame ends the loop
+   (`break`, /repo 22baf83) and the properties read so far are returned *)
 Fixpoint parse_props (fuel : nat) (f : list N) (plen index : N) : option (list vprop) :=
   match fuel with
   | O => Some []
   | S k =>
       if index <? plen then
-        if N.of_nat (length f) <? 11 + index then None
+        if N.of_nat (length f) <? 11 + index then Some []
         else
           let code := nth (N.to_nat (8 + index)) f 0 in
           let n := nth (N.to_nat (9 + index)) f 0 + 256 * nth (N.to_nat (10 + index)) f 0 in
           if 0 <? n then
-            if N.of_nat (length f) <? 11 + index + n then None
+            if N.of_nat (length f) <? 11 + index + n then Some []
             else
               match parse_props k f plen (index + n + 3) with
               | Some r => Some (mkVprop code (Some (firstn (N.to_nat n) (skipn (N.to_nat (11 + index)) f))) :: r)
@@ -79,10 +82,11 @@ Fixpoint parse_props (fuel : nat) (f : list N) (plen index : N) : option (list v
       else Some []
   end.
 
-(* Some None = the flag says "no properties" (Go returns nil); None = panic *)
+(* Some None = the flag says "no properties" (Go returns nil); a frame too short for the property header has no
+   properties (empty, non-nil slice) *)
 Definition frame_props (f : list N) : option (option (list vprop)) :=
   if frame_has_props f then
-    if N.of_nat (length f) <? 8 then None
+    if N.of_nat (length f) <? 8 then Some (Some [])
     else match parse_props (S (N.to_nat (frame_plen f))) f (frame_plen f) 0 with
          | Some r => Some (Some r)
          | None => None
@@ -245,7 +249,7 @@ Proof.
     pose proof (vprops_len_ge ps) as Hg. fold plen in Hg. lia.
   - unfold frame_value, frame_value_offset. rewrite Hhas, H8, Hpl.
     assert (Ho : N.of_nat (length f) <? plen + 8 = false) by (apply N.ltb_ge; lia).
-    rewrite Ho. f_equal. rewrite Hf, app_assoc. apply skipn_app_at.
+    rewrite Ho. cbv beta iota. rewrite Ho. f_equal. rewrite Hf, app_assoc. apply skipn_app_at.
     rewrite app_length. apply Nnat.Nat2N.inj. rewrite Nnat.N2Nat.id, Nnat.Nat2N.inj_add, vprops_bytes_length.
     fold plen. simpl length. lia.
 Qed.
@@ -265,7 +269,7 @@ Proof.
   - unfold frame_value, frame_value_offset. rewrite Hhas.
     unfold f, frame_of, frame_build. cbn [fst app le4 length]. 
     assert (Ho : N.of_nat (S (S (S (S (S (S (length data))))))) <? 6 = false) by (apply N.ltb_ge; lia).
-    rewrite Ho. reflexivity.
+    rewrite Ho. cbv beta iota. rewrite Ho. reflexivity.
 Qed.
 
 (* stage and type survive the packing into byte 4 *)
